@@ -4,6 +4,7 @@
 mod coll;
 mod scen;
 mod acc;
+mod kil;
 mod packed;
 mod psn;
 mod values;
@@ -608,6 +609,9 @@ fn main() {
 			writeln!(out, "{}", vtree::list()).unwrap();
 		} else if line.starts_with("pk ") {
 			writeln!(out, "{}", packed::run(&line)).unwrap();
+			out.flush().unwrap();
+		} else if line.starts_with("kq ") {
+			writeln!(out, "{}", kil::run(&line)).unwrap();
 			out.flush().unwrap();
 		} else if line.starts_with("pq ") {
 			writeln!(out, "{}", psn::run(&line)).unwrap();
